@@ -152,9 +152,54 @@ def rule_position(ctx, f, b):
     rec = [bi for bi, t in F.calls(b) if F.callee_name(t) == b["id"]]
     okd = bool(contains) and all(any(cfg.dominates(c, r) for c in contains) for r in rec)
     ctx.check(okd, "C07-G1", "page_limited#descent-guard", "the descent into a subtree is not guarded by a range test on the running position", b["span"], detail="(pos .. pos + count).contains(page_nr)")
+    # ... on the side of the test where the index lies inside the subtree, into the kid that was just loaded, with the index made relative to it
+    def sides(test_bb, dest_local):
+        """(blocks reachable when the test is true, when it is false), both without going round the loop"""
+        for i2, bb2 in enumerate(b["blocks"]):
+            t2 = bb2["term"]
+            if t2["k"] == "switch" and F.op_local(t2["discr"]) == dest_local and (i2 == test_bb or cfg.dominates(test_bb, i2)):
+                arms2 = {a[0]: a[1] for a in t2["arms"]}
+                ft = arms2.get(0)
+                tt_ = t2["otherwise"] if 0 in arms2 else arms2.get(1)
+                if ft is None or tt_ is None or ft == tt_:
+                    return None
+                return cfg.reachable_from(tt_, avoid={head}) | {tt_}, cfg.reachable_from(ft, avoid={head}) | {ft}
+        return None
+    for r in rec:
+        t = b["blocks"][r]["term"]
+        pol = False
+        for c in contains:
+            if cfg.dominates(c, r) and b["blocks"][c]["term"].get("dest"):
+                sd = sides(c, b["blocks"][c]["term"]["dest"][0])
+                pol = pol or (sd is not None and r in sd[0] and r not in sd[1])
+        ctx.check(pol, "C07-G1", "page_limited#descent-side", "the descent into a subtree sits on the side of the range test where the index is NOT in the subtree (or on both sides)",
+                  t["span"], detail="descent only when (pos .. end).contains(page_nr)")
+        rl = arg_local(t, 0)
+        ra = fl.origins(rl) if rl is not None else []
+        from_kid = any(a[0] == "call" and a[2] in gets for a in ra)
+        ctx.check(from_kid, "C07-G1", "page_limited#descent-node", "the recursive call does not descend into the kid that was just loaded (its receiver does not derive from "
+                  "resolve.get(kid)): the same node is searched again with the reduced index", t["span"], detail="tree.page_limited(..) with tree from resolve.get(kid)")
+        il = arg_local(t, 2)
+        subs = [a for a in (fl.origins(il) if il is not None else []) if a[0] == "binop" and a[1].startswith("Sub")]
+        rel = False
+        for a in subs:
+            l1, l2 = F.op_local(a[3][2]), F.op_local(a[3][3])
+            rel = rel or (l1 is not None and l2 is not None and fl.derives_from_arg(l1, 3, passthrough=()) and
+                          (l2 in pos_locals or any(x in pos_locals for x in [F.op_place(d[2][1])[0] for d in fl.defs.get(l2, []) if d[0] == "assign" and d[2][0] == "use" and F.op_place(d[2][1])])))
+        ctx.check(rel, "C07-G1", "page_limited#descent-index", "the index handed to the subtree is not the requested index minus the running position", t["span"],
+                  detail="page_nr - pos")
     eqs = [i for i, j, s in F.stmts(b) if i in body and s[0] == "assign" and s[2][0] == "binop" and s[2][1] == "Eq"]
     leaf_ret = [i for i, j, s in F.stmts(b) if cfg.dominates(head, i) and s[0] == "assign" and s[2][0] == "aggregate" and s[2][1].get("adt") == "object::types::PageRc"]
     okl = bool(eqs) and bool(leaf_ret) and all(any(cfg.dominates(e, r) for e in eqs) for r in leaf_ret)
+    if okl:
+        # ... and is returned on the equal side
+        okl = False
+        for e in eqs:
+            for s_ in b["blocks"][e]["stmts"]:
+                if s_[0] == "assign" and s_[2][0] == "binop" and s_[2][1] == "Eq":
+                    sd = sides(e, s_[1][0])
+                    if sd is not None and all(r in sd[0] and r not in sd[1] for r in leaf_ret if cfg.dominates(e, r)) and any(cfg.dominates(e, r) for r in leaf_ret):
+                        okl = True
     ctx.check(okl, "C07-G1", "page_limited#leaf-guard", "a leaf is returned without comparing the running position with the requested index", b["span"], detail="if pos == page_nr { return leaf }")
     # normal exit
     oob = [i for i, j, s in F.stmts(b) if s[0] == "assign" and s[2][0] == "aggregate" and s[2][1].get("adt") == "error::PdfError" and s[2][1]["variant"] == "PageOutOfBounds"]
